@@ -30,6 +30,7 @@ import (
 	"time"
 
 	"github.com/IrineSistiana/mosdns/v5/pkg/dnsutils"
+	"github.com/IrineSistiana/mosdns/v5/pkg/verifhook"
 	"github.com/miekg/dns"
 	"go.uber.org/zap"
 )
@@ -102,6 +103,7 @@ func (sp *Bootstrap) GetAddrPortStr(ctx context.Context) (string, error) {
 
 func (sp *Bootstrap) tryUpdate() {
 	if sp.updating.CompareAndSwap(false, true) {
+		verifhook.PointArg("bootstrap.tryupdate", &sp.nextUpdate)
 		if time.Now().After(sp.nextUpdate) {
 			go func() {
 				defer sp.updating.Store(false)
